@@ -135,6 +135,9 @@ def scenarios(ctx):
     out.append(Std('persist-v31-to-v311', profile='pubsub', mode='sync', init=(('connect', 0, False, 0, 3), ('connack', 0, 0, False)),
                    connects=[(False, 0, 3)], reconnects=[(False, 0, 4)], pub_qos=(2,),
                    budgets=dict(pub=1, sub=1, unsub=1, ack=1, tick=2 if q else 3, lose=1, rebuild=1, connect=1, connack=1), closing=False))
+    # every argument shape of subscribe()/unsubscribe(), the empty list included (a SUBSCRIBE without topics is malformed)
+    out.append(Std('sub-shapes', profile='sub', mode='sync', init=CONNECTED + (('setwin', 0, 2),), sub_shapes=('str', 'tuple', 'list', 'empty'),
+                   unsub_shapes=('str', 'list', 'empty'), budgets=dict(sub=2, unsub=1, ack=1, tick=1), closing=False))
     # repeated acknowledgements, then disconnect()/loss, then time passes
     for mode in ('sync', 'async'):
         out.append(Std('q2-dup-acks-%s' % mode, profile='pub', mode=mode, init=CONNECTED, pub_qos=(2,), api_after_close=True,
